@@ -139,6 +139,18 @@ class E5Reviews:
         if task.get('mode') == 'replay':
             v, sess = run_history(task['config'], task['ops'],
                                   task['scratch'], self.checks())
+            es = task.get('engine_state') or {}
+            if v is None and es.get('batch_seed') is not None:
+                # the violation needed what earlier histories of the same
+                # process left behind (one Bert-E process serves many pull
+                # requests): replay the batch up to that history
+                rng0 = random.Random(es['batch_seed'])
+                for i in range(es['index']):
+                    rng = random.Random(rng0.randrange(2 ** 48))
+                    cfg_i, ops_i = self.gen(rng)
+                    run_history(cfg_i, ops_i, task['scratch'], self.checks())
+                v, sess = run_history(task['config'], task['ops'],
+                                      task['scratch'], self.checks())
             return {'property': self.ID, 'seed': task['seed'],
                     'config': task['config'], 'ops': task['ops'], 'runs': 1,
                     'violations': [v.as_dict()] if v else [],
@@ -168,6 +180,7 @@ class E5Reviews:
             if v is not None:
                 viol.append(v.as_dict())
                 out = (cfg, ops, seed)
+                engine_state = {'batch_seed': task['seed'], 'index': i}
                 break
         res = {'property': self.ID, 'seed': out[2], 'config': out[0],
                'ops': out[1], 'violations': viol, 'stats': stats,
@@ -175,6 +188,8 @@ class E5Reviews:
                'nontrivial_digests': sorted(nontrivial),
                'nontrivial_runs': runs, 'samples': samples,
                'trace_digest': digest(trace), 'sim_seconds': 0, 'extra': {}}
+        if viol:
+            res['engine_state'] = engine_state
         if task.get('want_trace'):
             res['trace'] = trace
         return res
